@@ -98,7 +98,26 @@ class FnAnalysis:
         self.switches = {}
         self.phi_ops = {}      # phi term -> {pred: term}
         self.unsupported = []  # notes about constructs treated as Fresh
+        self.hints = {}
         self._run()
+
+    def hint(self, term, ty):
+        if term is not None and ty and term not in self.hints:
+            self.hints[term] = norm(ty)
+
+    def type_hint(self, term):
+        h = self.hints.get(term)
+        if h:
+            return h
+        if term.op == "call":
+            f = term.args[0]
+            if f == "ops::Try::branch":
+                return "ops::ControlFlow"
+            if f in ("option::Option::ok_or", "option::Option::ok_or_else"):
+                return "result::Result"
+        if term.op == "agg" and term.args[0] == "adt":
+            return term.args[1]
+        return None
 
     # ------------------------------------------------------------------ CFG
     def _succs_of(self, t):
@@ -287,10 +306,11 @@ class FnAnalysis:
         return Term("opaque", c.get("opaque"), norm(c["ty"]))
 
     def operand(self, st, o):
-        if "copy" in o:
-            return self.read(st, self.resolve_place(st, o["copy"]))
-        if "move" in o:
-            return self.read(st, self.resolve_place(st, o["move"]))
+        if "copy" in o or "move" in o:
+            pl = o.get("copy") or o.get("move")
+            t = self.read(st, self.resolve_place(st, pl))
+            self.hint(t, pl["ty"])
+            return t
         if "const" in o:
             return self.const_term(o["const"])
         return Term("opaque", o.get("opaque"), None)
@@ -323,6 +343,7 @@ class FnAnalysis:
             return T.un(rv["op"], self.operand(st, rv["x"]), norm(rv["xty"]))
         if k == "discr":
             x = self.read(st, self.resolve_place(st, rv["place"]))
+            self.hint(x, rv["place"]["ty"])
             return self.discr_term(st, x, rv["place"]["ty"])
         if k == "agg":
             fields = [self.operand(st, f) for f in rv["fields"]]
@@ -505,12 +526,12 @@ class FnAnalysis:
         ph = T.phi((self.fid, b), key)
         self.phi_ops[ph] = dict(vals)
         if key[0][0] == "L" and not key[1]:
-            self.prog.hint(ph, self.local_ty.get(key[0][1]))
+            self.hint(ph, self.local_ty.get(key[0][1]))
         else:
             for _, v in vals:
-                h = self.prog.type_hint(v)
+                h = self.type_hint(v)
                 if h:
-                    self.prog.hint(ph, h)
+                    self.hint(ph, h)
                     break
         return ph
 
@@ -674,7 +695,7 @@ class FnAnalysis:
             return facts | {("ne", d, v)}
 
     def _variants_for_discr(self, x):
-        ty = self.prog.type_hint(x)
+        ty = self.type_hint(x)
         if ty:
             return self.variants_of(ty)
         return None
@@ -694,7 +715,7 @@ class FnAnalysis:
         dest_ty = t["dest"]["ty"]
         if "indirect" in callee:
             res = T.fresh(site, "ret")
-            self.prog.hint(res, dest_ty)
+            self.hint(res, dest_ty)
             self._havoc_mut_args(st, site, t, args, None)
             self.write(st, dest_lv, res)
             self.calls_by_block[b] = CallSite(b, t, {"qual": "<indirect>"}, args, res, facts_before, [])
@@ -719,7 +740,7 @@ class FnAnalysis:
             self.write(st, off_lv, Term("okelse", res, T.bin("Add", off0, T.const("usize", width), "usize"), off0))
         else:
             res = self.prog.model_call(self, st, site, callee, nq, dq, generics, args, arg_tys, arg_lvs, mut_idx, t)
-        self.prog.hint(res, dest_ty)
+        self.hint(res, dest_ty)
         self.write(st, dest_lv, res)
         cs = CallSite(b, t, callee, args, res, facts_before, arg_lvs)
         cs.pointee_before = pointee_before
@@ -779,26 +800,6 @@ class Program:
         self._stack = []
         self.callee_table = None
 
-    def hint(self, term, ty):
-        if term is not None and ty and term not in self._hints:
-            self._hints[term] = norm(ty)
-
-    def type_hint(self, term):
-        h = self._hints.get(term)
-        if h:
-            return h
-        if term.op == "call":
-            f = term.args[0]
-            if f == "ops::Try::branch":
-                return "ops::ControlFlow"
-            if f in ("option::Option::ok_or", "option::Option::ok_or_else"):
-                return "result::Result"
-        if term.op == "agg" and term.args[0] == "adt":
-            return term.args[1]
-        if term.op in ("phi",):
-            return self._hints.get(term)
-        return None
-
     def analysis(self, fn, assume=()):
         key = (fn["id"], tuple(assume))
         if key in self._an:
@@ -824,10 +825,35 @@ class Program:
             return self.facts.by_id[cid]
         return None
 
+    def size_for_lower_bound(self, t):
+        """lower bound of ParseAt::size_for over the named impl, or over all in-crate impls for a type parameter"""
+        from .prover import Prover
+        f = t.args[0]
+        cands = []
+        for fn in self.facts.all_fns():
+            q = fn["qual"]
+            if q.endswith(" as parse::ParseAt>::size_for"):
+                if f.startswith("<") and q != f:
+                    continue
+                cands.append(fn)
+        if not cands:
+            return None
+        best = None
+        for fn in cands:
+            an = self.analysis(fn)
+            rt = an.ret_term() if an else None
+            if rt is None:
+                return None
+            l = Prover(an).lb(rt, ())
+            if l is None:
+                return None
+            best = l if best is None else min(best, l)
+        return best
+
     # ---- callee models ------------------------------------------------------------------
     def model_call(self, an, st, site, callee, nq, dq, generics, args, arg_tys, arg_lvs, mut_idx, t):
         # 1. semantic models of a few core functions
-        m = self._core_model(an, st, nq, dq, generics, args, arg_tys)
+        m = self._core_model(an, st, nq, dq, generics, args, arg_tys, callee)
         if m is not None:
             return m
         # 2. in-crate callee: inline a closed summary when there is one
@@ -850,6 +876,11 @@ class Program:
             an._havoc_mut_args(st, site, t, args, None)
             return T.fresh(site, "ret")
         # 3. external or unresolved callee
+        if dq in ("iter::Iterator::position", "iter::Iterator::rposition") and args and args[0].op == "ref":
+            it = an.read(st, arg_lvs[0])
+            if it.op == "call" and it.args[0] == "[T]::iter":
+                an._havoc_mut_args(st, site, t, args, None)
+                return T.call("slice::" + dq.split("::")[-1], (), [it.args[2][0], args[1]])
         if mut_idx:
             an._havoc_mut_args(st, site, t, args, None)
             return T.fresh(site, "ret")
@@ -939,18 +970,22 @@ class Program:
         except KeyError:
             return None
 
-    def _core_model(self, an, st, nq, dq, generics, args, arg_tys):
+    def _core_model(self, an, st, nq, dq, generics, args, arg_tys, callee):
         name = dq
         if name == "[T]::len" or nq == "[T]::len":
             return T.length(args[0])
         if name == "[T]::is_empty":
             return T.bin("Eq", T.length(args[0]), T.const("usize", 0), "usize")
-        if name in ("cmp::PartialEq::eq", "cmp::PartialEq::ne") and not nq.startswith("<"):
+        if name in ("cmp::PartialEq::eq", "cmp::PartialEq::ne") and callee.get("resolved") and callee.get("resolved_crate") != self.facts["crate"]:
             # external impl (core): value equality of the pointees
             a = self._val(an, st, args[0])
             b = self._val(an, st, args[1])
             e = T.bin("Eq", a, b, generics[0] if generics else "?")
             return e if name.endswith("eq") else T.un("Not", e, "bool")
+        if name == "mem::size_of" and generics:
+            sz = {"u8": 1, "i8": 1, "u16": 2, "i16": 2, "u32": 4, "i32": 4, "u64": 8, "i64": 8, "u128": 16, "i128": 16}.get(generics[0])
+            if sz is not None:
+                return T.const("usize", sz)
         if name == "ops::FromResidual::from_residual":
             x = args[0]
             if x.op == "residual":
